@@ -16,6 +16,9 @@ for d in $(ls -d seeded/*/ | sort -V); do
   if [ $# -gt 0 ]; then case " $* " in *" $id "*) ;; *) continue;; esac; fi
   if ! git -C /repo apply --check /verif/$d/patch.diff 2>/dev/null; then echo "$s does-not-apply" | tee -a $out; continue; fi
   git -C /repo apply /verif/$d/patch.diff
+  # a seed whose meta.json names another check ("check": "C15") is run against that one
+  alt=$(python3 -c "import json,sys; print(json.load(open('/verif/$d/meta.json')).get('check',''))" 2>/dev/null)
+  [ -n "$alt" ] && id=$alt
   ./check $id quick > /verif/work/seed_$s.out 2>&1; rc=$?
   git -C /repo checkout -- . ; git -C /repo clean -fdq
   n=$(grep -c "^VIOLATION" /verif/work/seed_$s.out)
